@@ -46,7 +46,9 @@ def TVals.length : TVals → Nat
 /-- An enum name is not mistaken for a number by `ReadEnumViewFromTextStream` (which looks at
 the first character: digit ⇒ unsigned number, `-` ⇒ signed number, else a name).  Emboss enum
 value names are SHOUTY_CASE, so this always holds for compiled modules. -/
-def NameLike (n : List Char) : Prop := ∀ c, n.head? = some c → isDigitChar c = false ∧ c ≠ '-'
+def NameLike : List Char → Prop
+  | [] => True
+  | c :: _ => isDigitChar c = false ∧ c ≠ '-'
 
 /-- The scalar `s` is a value the view described by the reader shape can hold. -/
 def ScalarMatches : RScalar → Scalar → Prop
